@@ -49,6 +49,14 @@ def oracle(acts, recs):
     mi = 0
     prev = None
     last_m = None
+    # touched[k]: the state was changed (gate, product, resize) between measurement k-1 and measurement k
+    touched = []
+    t = False
+    for a in acts:
+        if a[0] == "measure":
+            touched.append(t); t = False
+        elif a[0] in ("apply", "tensorr", "tensorl", "mulassign", "setnum"):
+            t = True
     for r in recs:
         if r[0] == "d":
             if last_m is not None and prev is not None:
@@ -79,7 +87,7 @@ def oracle(acts, recs):
         elif r[0] == "m":
             if mi < len(measures):
                 # repeated measurement of the same mask returns the same value
-                if mi > 0 and measures[mi][1] == measures[mi - 1][1] and prev_m is not None and r[1] != prev_m:
+                if mi > 0 and measures[mi][1] == measures[mi - 1][1] and prev_m is not None and r[1] != prev_m and not touched[mi]:
                     fails.append("repeated measurement of mask %d returned %d then %d" % (measures[mi][1], prev_m, r[1]))
                 last_m = (measures[mi][1], r[1])
                 prev_m = r[1]
